@@ -4798,7 +4798,15 @@ func slotCountAgreement(c *Ctx, pk *packages.Package) {
 			continue
 		}
 		f := c.P.NewFuncCFG(fd)
-		isSlotNilTest := func(e ast.Expr) bool {
+		var isSlotNilTest func(e ast.Expr) bool
+		isSlotNilTest = func(e ast.Expr) bool {
+			if id, ok := ast.Unparen(e).(*ast.Ident); ok {
+				// a boolean local bound once to the test
+				if v, ok := f.Info.ObjectOf(id).(*types.Var); ok && !f.params[v] && len(f.defs[v]) == 1 && len(f.defs[v][0].rhs) == 1 {
+					return isSlotNilTest(f.defs[v][0].rhs[0])
+				}
+				return false
+			}
 			be, ok := ast.Unparen(e).(*ast.BinaryExpr)
 			if !ok || be.Op != token.EQL {
 				return false
@@ -4865,6 +4873,58 @@ func slotCountAgreement(c *Ctx, pk *packages.Package) {
 						}
 					}
 				}
+			}
+			if !emptied && len(fd.Decl.Body.List) == 1 {
+				// a helper that does nothing but the decrement: its callers are the units
+				all, some := true, false
+				for _, cfd := range c.P.AllFuncDecls() {
+					if cfd.Pkg != pk || cfd.Decl.Body == nil {
+						continue
+					}
+					cf := c.P.NewFuncCFG(cfd)
+					var cstack []ast.Node
+					ast.Inspect(cfd.Decl.Body, func(y ast.Node) bool {
+						if y == nil {
+							cstack = cstack[:len(cstack)-1]
+							return true
+						}
+						cstack = append(cstack, y)
+						es, ok := y.(*ast.ExprStmt)
+						if !ok {
+							return true
+						}
+						call, ok := es.X.(*ast.CallExpr)
+						if !ok {
+							return true
+						}
+						if cfn := calleeFunc(cfd.Pkg.TypesInfo, call); cfn == nil || cfn.Origin() != fd.Obj {
+							return true
+						}
+						some = true
+						okHere := false
+						if len(cstack) >= 2 {
+							var list []ast.Stmt
+							switch p := cstack[len(cstack)-2].(type) {
+							case *ast.BlockStmt:
+								list = p.List
+							case *ast.CaseClause:
+								list = p.Body
+							}
+							for _, st := range list {
+								if as, ok := st.(*ast.AssignStmt); ok && len(as.Lhs) == 1 && len(as.Rhs) == 1 {
+									if cf.DirectMentions(as.Lhs[0])["pkg/network/bqueue#queue"] && cf.DirectMentions(as.Rhs[0])["pkg/network/bqueue#nilQ"] {
+										okHere = true
+									}
+								}
+							}
+						}
+						if !okHere {
+							all = false
+						}
+						return true
+					})
+				}
+				emptied = some && all
 			}
 			if emptied {
 				c.OK(key, c.P.Pos(id.Pos()), "len shrinks together with a slot being emptied")
